@@ -240,14 +240,41 @@ def cells(prop, tier):
     out = []
     q = 'quick'
     for tg in range(4):
-        for nc in (1, 2):
-            if TARGET[tg] in ('closed', 'own') and nc == 2:
-                continue
-            out.append(Cell(name='c17_%s_%dcallers' % (TARGET[tg], nc),
+        tname = TARGET[tg]
+        if tname in ('closed', 'own', 'idle'):
+            out.append(Cell(name='c17_%s_1caller' % tname,
                             sig='delays: List[int], durs: List[int], fails: List[bool], awkind: int, api: bool, prio_idx: int, p1: int',
                             pre=['len(delays) == 2 and len(durs) == 2 and len(fails) == 2 and all(0 <= d <= 2 for d in delays) and all(0 <= d <= 3 for d in durs)',
-                                 '0 <= awkind <= 2 and 0 <= prio_idx <= %d and 0 <= p1 <= 120' % ([0, 1, 5][nc] if TARGET[tg] == 'running' else [0, 0, 1][nc])],
-                            body='H.scen_ensure(%d, %d, delays, durs, fails, awkind, api, prio_idx, p1)' % (tg, nc), tier=q, timeout=900, family='ensure', weight=3))
+                                 '0 <= awkind <= 2 and prio_idx == 0 and 0 <= p1 <= 120'],
+                            body='H.scen_ensure(%d, 1, delays, durs, fails, awkind, api, prio_idx, p1)' % tg, tier=q, timeout=900, family='ensure', weight=2))
+        if tname == 'running':
+            for ak in range(3):
+                for api in (False, True):
+                    out.append(Cell(name='c17_running_1caller_%s_%s' % (AWKIND[ak], 'run_aw' if api else 'ensure_aw'),
+                                    sig='delays: List[int], durs: List[int], fails: List[bool], prio_idx: int, p1: int',
+                                    pre=['len(delays) == 2 and len(durs) == 2 and len(fails) == 2 and all(0 <= d <= 1 for d in delays) and all(0 <= d <= 2 for d in durs)',
+                                         '0 <= prio_idx <= 1 and 0 <= p1 <= 120'],
+                                    body='H.scen_ensure(%d, 1, delays, durs, fails, %d, %r, prio_idx, p1)' % (tg, ak, api), tier=q, timeout=900, family='ensure', weight=3))
+        if tname in ('idle', 'running'):
+            # quick: fixed durations/outcomes, every single pre-emption under two priority orders
+            for ak in range(3):
+                if tname == 'running' and ak != 0:
+                    continue
+                out.append(Cell(name='c17_%s_2callers_%s_fixed' % (tname, AWKIND[ak]), sig='prio_idx: int, p1: int',
+                                pre=['0 <= prio_idx <= 1 and 0 <= p1 <= 160'],
+                                body='H.scen_ensure(%d, 2, [0, 0], [2, 1], [False, %r], %d, False, prio_idx, p1)' % (tg, tname == 'running', ak),
+                                tier=q, timeout=1200, family='ensure', weight=5))
+            # thorough: symbolic durations and outcomes, all priority orders
+            for ak in range(3):
+                for dl in ([0, 0], [0, 1]):
+                    for pr in range(6 if tname == 'running' else 2):
+                        out.append(Cell(name='c17_%s_2callers_%s_d%d%d_prio%d' % (tname, AWKIND[ak], dl[0], dl[1], pr),
+                                        sig='durs: List[int], fails: List[bool], p1: int',
+                                        pre=['len(durs) == 2 and len(fails) == 2 and all(0 <= d <= 2 for d in durs) and 0 <= p1 <= 160'],
+                                        body='H.scen_ensure(%d, 2, %r, durs, fails, %d, False, %d, p1)' % (tg, dl, ak, pr),
+                                        tier='thorough', timeout=6000, family='ensure', weight=5))
+    if tier != 'thorough':
+        out = [c for c in out if c.tier == 'quick']
     out.append(Cell(name='c17_two_starters', sig='prio_idx: int, p1: int, q1: int', pre=['0 <= prio_idx <= 1 and 0 <= p1 <= 80 and 0 <= q1 <= 2'],
                     body='H.scen_two_starters(prio_idx, p1, q1)', tier=q, timeout=600, family='loop_in_thread', weight=2))
     out.append(Cell(name='twin_c17', sig='p1: int', pre=['0 <= p1 <= 40'], body='H.twin(p1)', expect='refute', timeout=200, family='ensure'))
